@@ -414,3 +414,52 @@ def rule_presize_condition(ctx):
                              "and a first no-fill write that does not start at the beginning fails" % (" && ".join(render(a[1])[:40] for a in outer) or "nothing"))
     ctx.floor("SETLEN", 1, n, "(stores of set_length = TRUE)")
     return n
+
+
+class _SetLenUse(PathAnalysis):
+    def __init__(self, prog):
+        super().__init__(prog)
+        self.bad = []
+        self.ios = 0
+
+    def init_user(self, func):
+        return False
+
+    def on_assume(self, func, bid, cond, pol, env, user):
+        if any(y[0] == "mem" and y[2] == "set_length" for y in walk(cond, True)):
+            return True
+        return user
+
+    def on_stmt(self, func, bid, idx, stmt, env, user):
+        for c in calls_in(stmt["e"]):
+            if c[1] == "hdf_get_vp_aid":
+                user = True  # opens the element and consumes a pending request itself
+            elif c[1] in ("Hseek", "Hwrite") and c[3] and (mem_field(c[3][0]) or (0, 0))[1] == "aid":
+                self.ios += 1
+                if not user:
+                    self.bad.append(c[5])
+        return user
+
+
+def rule_presize_consumed(ctx):
+    """SETLENUSE (C03): SDwritedata only *requests* the pre-sizing (`set_length`); it is carried out where the data element
+    is used.  The element may already be open (an earlier read of the still empty data set opened it), in which case the
+    routine that opens elements never sees the request.  Every path of hdf_xdr_NCvdata that reaches a seek or write on the
+    variable's element has therefore either opened the element through hdf_get_vp_aid or tested `set_length` itself."""
+    prog = ctx.prog
+    f = prog.func("hdf_xdr_NCvdata")
+    if f is None:
+        ctx.unrecognised("SETLENUSE", "SETLENUSE:hdf_xdr_NCvdata", "-", "hdf_xdr_NCvdata not found")
+        return 0
+    a = _SetLenUse(prog)
+    a.fails = fail_values(f, prog)
+    a.run(f)
+    key = "SETLENUSE:hdf_xdr_NCvdata"
+    if not a.ios:
+        ctx.unrecognised("SETLENUSE", key, f.where(), "no Hseek/Hwrite on vp->aid found")
+    elif a.bad:
+        ctx.violated("SETLENUSE", key, f.where(min(a.bad)), "the element is positioned or written (line %d) on a path that neither opened it through hdf_get_vp_aid nor looked at `set_length`: "
+                     "when a read opened the element first, the pending pre-sizing is never carried out and the first no-fill write inside the array fails" % min(a.bad))
+    else:
+        ctx.holds("SETLENUSE", key, f.where(), "a pending pre-sizing request is seen before every seek/write on the element (%d sites)" % a.ios, nontrivial=True)
+    return 1
